@@ -107,16 +107,32 @@ func (m c11matrix) parsed(bare bool) (*pipeline.Matrix, bool) {
 			return nil, false
 		}
 	}
+	// (a value "" may be written as a null item, and a nil adjustment is a null item of the list)
+	nulls := func(vs []string) []any {
+		out := make([]any, len(vs))
+		for i, v := range vs {
+			out[i] = v
+			if v == "" && (c11caseN+i)%2 == 0 {
+				out[i] = nil
+			}
+		}
+		return out
+	}
 	doc := map[string]any{}
 	if vs, only := m.setup[""]; only && len(m.setup) == 1 {
-		doc["setup"] = vs
+		doc["setup"] = nulls(vs)
 	} else {
-		doc["setup"] = m.setup
+		su := map[string]any{}
+		for d, vs := range m.setup {
+			su[d] = nulls(vs)
+		}
+		doc["setup"] = su
 	}
 	var adjs []any
 	for _, a := range m.adjs {
 		if a.nilp {
-			return nil, false
+			adjs = append(adjs, nil)
+			continue
 		}
 		ad := map[string]any{}
 		if v, only := a.with[""]; only && len(a.with) == 1 && c11otherN%2 == 0 {
@@ -140,7 +156,7 @@ func (m c11matrix) parsed(bare bool) (*pipeline.Matrix, bool) {
 	}
 	var mdoc any = doc
 	if vs, only := m.setup[""]; bare && only && len(m.setup) == 1 && adjs == nil {
-		mdoc = vs // the shorthand: the matrix written as the bare list of values
+		mdoc = nulls(vs) // the shorthand: the matrix written as the bare list of values
 		stat("C11", "matrix-as-bare-list")
 	}
 	text, err := json.Marshal(map[string]any{"steps": []any{map[string]any{"command": "echo", "matrix": mdoc}}})
